@@ -195,10 +195,20 @@ where
         }
         Ok(trailer)
     }
+    /// The body of the file: from the header up to the newest cross-reference section.
+    /// `startxref` is relative to the header, like every other offset in the file.
+    fn scan_range(&self) -> Result<&[u8]> {
+        let xref_offset = t!(self.backend.locate_xref_offset());
+        let end = t!(self.start_offset.checked_add(xref_offset).ok_or(PdfError::Invalid));
+        self.backend.read(self.start_offset .. end)
+    }
     pub fn scan(&self) -> impl Iterator<Item = Result<ScanItem>> + '_ {
-        let xref_offset = self.backend.locate_xref_offset().unwrap();
-        let slice = self.backend.read(self.start_offset .. xref_offset).unwrap();
-        let mut lexer = Lexer::with_offset(slice, 0);
+        let (slice, mut failed) = match self.scan_range() {
+            Ok(slice) => (slice, None),
+            Err(e) => (&[][..], Some(e)),
+        };
+        // positions (and with them the `file_range` of every stream) are absolute
+        let mut lexer = Lexer::with_offset(slice, self.start_offset);
         
         fn skip_xref(lexer: &mut Lexer) -> Result<()> {
             while lexer.next()? != "trailer" {
@@ -209,6 +219,9 @@ where
 
         let resolver = StorageResolver::new(self);
         std::iter::from_fn(move || {
+            if let Some(e) = failed.take() {
+                return Some(Err(e));
+            }
             loop {
                 let pos = lexer.get_pos();
                 match parse_indirect_object(&mut lexer, &resolver, self.decoder.as_ref(), ParseFlags::all()) {
